@@ -224,6 +224,22 @@ def parse_mem_header(text):
     return regs, listing
 
 
+def parse_linker_regions(text):
+    """MEMORY { name : ORIGIN = 0x..., LENGTH = 0x... }  ->  {name: (origin, length)}"""
+    m = re.search(r"MEMORY\s*\{(.*?)\}", text, re.S)
+    if not m:
+        raise ParseError("no MEMORY block in linker regions")
+    out = {}
+    for ln in m.group(1).splitlines():
+        if not ln.strip():
+            continue
+        mm = re.match(r"\s*(\w+)\s*:\s*ORIGIN\s*=\s*(0x[0-9a-fA-F]+)\s*,\s*LENGTH\s*=\s*(0x[0-9a-fA-F]+)\s*$", ln)
+        if not mm:
+            raise ParseError(f"linker region line {ln!r}")
+        out[mm.group(1).lower()] = (int(mm.group(2), 16), int(mm.group(3), 16))
+    return out
+
+
 def parse_soc_header(text):
     env, raw = parse_defines(text)
     env = {k: v for k, v in env.items() if not k.startswith("__")}
